@@ -36,3 +36,4 @@ def check(ctx):
     observables.hamiltonian_structure(ctx)
     step.sv_initial_hamiltonian(ctx)
     drivers.phase_shortcut(ctx)
+    drivers.sv_current_hamiltonian(ctx)
